@@ -28,7 +28,7 @@ from c04 import js, prow, gen_fn, gen_rows, fn_tok, net_tok, build_fn
 F = Fraction
 
 
-def gen_history(ctx, rng):
+def gen_history(ctx, rng, mutate=True):
     space = c04.gen_space(rng, ["x", "t", "y"], 1, 2)
     nd = rng.randint(1, 2)
     tn = rng.choice([1, 2, 3])          # number of rows of every stored table of this history (= points of their conditions)
@@ -125,13 +125,80 @@ def gen_history(ctx, rng):
             nval = rng.randint(0, len(part) - 1) if fit else 0
             ops.append(dict(op="f" if fit else "s", cids=part, val=part[len(part) - nval:] if nval else [],
                             fresh={str(k): gen_rows(rng, conds[k - 1]["n"], dim_of(conds[k - 1]["space"])) for k in part}))
-    return dict(kind="history", space=space, dicts=dicts, conds=conds, ops=ops)
+    h = dict(kind="history", space=space, dicts=dicts, conds=conds, ops=ops)
+    if mutate:
+        add_user_mutations(rng, h)
+    return h
+
+
+def add_user_mutations(rng, h):
+    """the USER changes their own dicts during the history (op "u"): a dict is handed to the first condition(s) while
+    still EMPTY (or with only some of its entries), then filled and handed to the next condition; later on entries are
+    removed or replaced.  Conditions constructed before keep behaving as constructed (each as if constructed alone)."""
+    import copy
+    conds, ops = h["conds"], h["ops"]
+    for i in range(1, len(h["dicts"])):
+        full = h["dicts"][i]
+        if not full or any(f.get("same_as") for d in h["dicts"] for f in d) or rng.random() < 0.4:
+            continue
+        order = [o["cid"] for o in ops if o["op"] == "c" and conds[o["cid"] - 1]["dref"] == i]
+        if not order:
+            continue
+        n_early = rng.randint(1, len(order))
+        early = order[:n_early]
+        initial = [] if rng.random() < 0.65 else [f for f in full if rng.random() < 0.5]
+        if len(initial) == len(full):
+            initial = initial[:-1]
+        have = {f["name"] for f in initial}
+        later = [f for f in full if f["name"] not in have]
+        for cid in early:
+            c = conds[cid - 1]
+            if any(k.get("share", {}).get("resid") == cid or k.get("share", {}).get("model") == cid for k in conds):
+                c_sh = [k for k in conds if cid in k.get("share", {}).values()]
+                for k in c_sh:
+                    k["share"] = {}
+            c["share"] = {}
+            out_space = c["net"]["out"]
+            avail = list(c["space"]) + out_space + [[p[0], len(p[1])] for p in c["param"]] + [[f["name"], len(f["body"])] for f in initial]
+            resid = gen_fn(rng, "resid", avail, rng.randint(1, 2), deg=2)
+            resid.pop("state", None)
+            if out_space[0][0] not in resid["params"]:
+                resid["params"].insert(0, out_space[0][0])
+            one_dim = [f for f in later if len(f["body"]) == 1]
+            if one_dim and rng.random() < 0.7:
+                # an OPTIONAL argument of the residual with the name of an entry the user adds to the dict later on
+                nm = rng.choice(one_dim)["name"]
+                if nm not in resid["params"]:
+                    resid["params"].append(nm)
+                    resid["defaults"].append([nm, [js(cc.dy(rng, 1, 6, 2))]])
+                    resid["body"][0] = ["+", resid["body"][0], ["v", nm, 0]]
+            resid["kwonly"] = 0
+            resid["wrap"] = False
+            c["resid"] = resid
+        h["dicts"][i] = copy.deepcopy(initial)
+        # the user fills the dict right before it is handed to the first condition that needs the rest
+        pos = next((k for k, o in enumerate(ops) if o["op"] == "c" and o["cid"] == order[n_early]), None) if n_early < len(order) else None
+        if pos is None:
+            last_c = max(k for k, o in enumerate(ops) if o["op"] == "c" and o.get("cid") in early)
+            pos = rng.randint(last_c + 1, len(ops))
+        ops.insert(pos, dict(op="u", dict=i, content=copy.deepcopy(full)))
+        if rng.random() < 0.4:
+            # later the user removes / replaces an entry; every condition on this dict has been constructed by then
+            last_c = max(k for k, o in enumerate(ops) if o["op"] == "c" and conds[o["cid"] - 1]["dref"] == i)
+            newc = copy.deepcopy(full)
+            if rng.random() < 0.5 or newc[0].get("form") in ("table", "stored"):
+                newc = newc[1:]
+            else:
+                rep_ = gen_fn(rng, newc[0]["name"], h["space"], len(newc[0]["body"]))
+                rep_["wrap"] = newc[0].get("wrap", False)
+                newc[0] = rep_
+            ops.insert(rng.randint(last_c + 1, len(ops)), dict(op="u", dict=i, content=newc))
 
 
 def gen_shared(ctx, rng):
     """histories in which several conditions use ONE sampler object (plain / static / static with a finite
     resample interval); by design of the library they then share its cached points"""
-    h = gen_history(ctx, rng)
+    h = gen_history(ctx, rng, mutate=False)
     space = h["space"]
     nS = rng.randint(1, 2)
     samplers = []
@@ -613,7 +680,18 @@ def run_history(case, only=None):
     state = {}
     objs = {}            # cid -> (model, residual function, inner sampler) for object sharing between conditions
     outs = []
+    aliased = []
     for op in case["ops"]:
+        if op["op"] == "u":
+            # the user's own action on their dict (in place: it is the very object the conditions were given)
+            d = pydicts[op["dict"]]
+            d.clear()
+            for spec in op["content"]:
+                d[spec["name"]] = build_entry(C, spec, sink, tables)
+            originals[op["dict"]] = dict(d)
+            prints[op["dict"]] = {k: fingerprint(v) for k, v in d.items()}
+            table_prints[:] = [fingerprint(t) for t in tables]
+            continue
         if op["op"] in ("s", "f"):
             part = [k for k in op["cids"] if only is None or k == only]
             if not part:
@@ -657,6 +735,14 @@ def run_history(case, only=None):
                     cond = Cls(model, sampler, resid, **kw)
                 state[op["cid"]] = (cond, inner)
                 outs.append((op["cid"], "-"))
+                # a condition must not keep the caller's dict object itself, nor the constructors' shared default `{}`
+                held = [v for v in vars(cond).values() if isinstance(v, dict)]
+                if any(any(v is d_ for d_ in pydicts) for v in held):
+                    aliased.append((op["cid"], "the user's dictionary object"))
+                if "default_dicts" not in _BASELINE:
+                    _BASELINE["default_dicts"] = [dflt for _, _, dflt in _default_args() if isinstance(dflt, dict)]
+                if any(any(v is dflt for dflt in _BASELINE["default_dicts"]) for v in held):
+                    aliased.append((op["cid"], "the shared default `{}` of the constructors"))
             else:
                 cond, inner = state[op["cid"]]
                 inner.next_rows = fresh
@@ -671,7 +757,7 @@ def run_history(case, only=None):
                            types=[type(d[k]).__name__ for k in d], changed=changed,
                            detail={k: (str(pr[k])[:120], str(fingerprint(d[k]))[:120]) for k in changed}))
     stored_changed = [i for i, (t, pr) in enumerate(zip(tables, table_prints)) if fingerprint(t) != pr]
-    return dict(outs=outs, dicts=report, stored_changed=stored_changed)
+    return dict(outs=outs, dicts=report, stored_changed=stored_changed, aliased=aliased)
 
 
 _IMMUTABLE = (type(None), bool, int, float, complex, str, bytes, tuple, frozenset, type)
@@ -752,6 +838,9 @@ def line_history(case, mode="new"):
                          "1" if c["static"] else "0", tok_table(prow(fresh))])
     ops = []
     for op in case["ops"]:
+        if op["op"] == "u":
+            ops.append(f"u {op['dict']} {lst(op['content'], entry_tok)}")
+            continue
         if op["op"] == "s":
             continue            # moving static data to the device it is on changes nothing in the model
         if op["op"] == "f":
@@ -806,7 +895,14 @@ def judge_history(rep, case, res, alone, reply):
         for o in mine:
             if isinstance(o, str) and o not in ("-", "~"):
                 rep.fail(f"condition {cid} raised: {o}", case)
-    for i, (d, spec) in enumerate(zip(res["dicts"], case["dicts"])):
+    final = [list(d) for d in case["dicts"]]
+    for o in case["ops"]:
+        if o["op"] == "u":
+            final[o["dict"]] = o["content"]
+            rep.count("history:user-changes-own-dict:" + ("filled-after-empty" if not case["dicts"][o["dict"]] else "entries-changed"))
+    for cid, what in res.get("aliased", []):
+        rep.fail(f"condition {cid} keeps {what} instead of a dict of its own: later changes of that object change the condition", case)
+    for i, (d, spec) in enumerate(zip(res["dicts"], final)):
         if d["keys"] != [f["name"] for f in spec] or not d["same_objects"]:
             rep.fail(f"user dict {i} was modified: keys {d['keys']}, holds {d['types']} (the user's own function objects: {d['same_objects']})",
                      case, detail=d)
@@ -831,7 +927,7 @@ def judge_history(rep, case, res, alone, reply):
         if not ok:
             rep.disagree("history outputs: drivers/C14.lean `run new` vs the real conditions", case, res["outs"], reply)
             return
-    want_tags = " ; ".join(" ".join(f"{f['name']}:{entry_tag(f)}" for f in d) for d in case["dicts"])
+    want_tags = " ; ".join(" ".join(f"{f['name']}:{entry_tag(f)}" for f in d) for d in final)
     if tags.strip() != want_tags.strip():
         rep.disagree("history: model's user dicts changed", case, want_tags, tags)
 
@@ -876,7 +972,7 @@ def gen_cases(ctx):
     for _ in range(ctx.scale(60, 650)):
         p = c04.gen_per(ctx, rng)
         p["calls"] = 2
-        if p["bspace"] and rng.random() < 0.6:
+        if p["bspace"] and rng.random() < 0.3:
             p["static"] = True
         cases.append(p)
     return cases
@@ -888,7 +984,7 @@ def key_of(case):
         c["ops"] = [(o["op"], o["cid"]) for o in c["ops"]]
         return c
     if c["kind"] in ("history", "shared"):
-        c["ops"] = [(o["op"], o.get("cid", o.get("cids"))) for o in c["ops"]]
+        c["ops"] = [(o["op"], o.get("cid", o.get("cids", o.get("dict")))) for o in c["ops"]]
         return c
     return c04.key_of(c)
 
@@ -924,7 +1020,7 @@ def run(ctx, rep, cases=None, _intensify=True):
                 "shared by >= 2 conditions; distinct = distinct history structure (point values ignored)")
     cases = cases if cases is not None else gen_cases(ctx)
     defaults_baseline()
-    rep.hist["default-arguments-watched"] = len([1 for k in _BASELINE if k != "taken"])
+    rep.hist["default-arguments-watched"] = len([1 for k in _BASELINE if isinstance(k, tuple)])
     hist = [c for c in cases if c["kind"] == "history"]
     pers = [c for c in cases if c["kind"] == "per"]
     results = [(run_history(c), {k["cid"]: run_history(c, only=k["cid"]) for k in c["conds"]}) for c in hist]
@@ -970,7 +1066,7 @@ def run(ctx, rep, cases=None, _intensify=True):
             shared[k["dref"]] = shared.get(k["dref"], 0) + 1
         rep.case(key_of(c), max(shared.values()) >= 2,
                  sample=dict(conditions=[dict(cid=k["cid"], dict=k["dref"], static=k["static"], cls=k["cls"]) for k in c["conds"]],
-                             ops=[(o["op"], o.get("cid", o.get("cids"))) for o in c["ops"]], implementation=r["outs"], model=m), kind="history")
+                             ops=[(o["op"], o.get("cid", o.get("cids", o.get("dict")))) for o in c["ops"]], implementation=r["outs"], model=m), kind="history")
         judge_history(rep, c, r, al, m)
     for c, (r, al), m, (_, which) in zip(facs, fres, freplies, flines):
         rep.case(key_of(c), True, sample=dict(bases=[(b["kind"], b["var"], b["n"]) for b in c["bases"]],
